@@ -46,6 +46,9 @@ package client
 //@   ensures[C15] old(fd.forceFailureErr) != nil ==> result1 == old(fd.forceFailureErr) && unchangedAll()
 //@ func (*Client).Query
 //@   partial
+//@   callsite[C02,C04,C17] mapTypesToDynamoSliceMapItem: arg.input == items
+//@   callsite[C02,C04,C17] mapTypesToDynamoMapItem: arg.input == lastKey
+//@   ensures[C02,C04,C17] result1 == nil ==> result0 != nil && result0.Count == len(items) && len(result0.Items) == len(items) && dom(result0.LastEvaluatedKey) == dom(lastKey)
 //@   ensures[C15] old(fd.forceFailureErr) != nil ==> result1 == old(fd.forceFailureErr) && unchangedAll()
 // C02/C04/C17: the search the client performs is the one the request describes (call-site clauses: arg.<p> is the
 // callee's parameter p; SearchData itself is C02/C04's subject in package core and is opaque here)
@@ -59,6 +62,9 @@ package client
 //@                arg.input.Limit == old(input.Limit == nil ? 0 : *input.Limit) && arg.input.Aliases == old(input.ExpressionAttributeNames)
 //@ func (*Client).Scan
 //@   partial
+//@   callsite[C02,C04,C17] mapTypesToDynamoSliceMapItem: arg.input == items
+//@   callsite[C02,C04,C17] mapTypesToDynamoMapItem: arg.input == lastKey
+//@   ensures[C02,C04,C17] result1 == nil ==> result0 != nil && result0.Count == len(items) && len(result0.Items) == len(items) && dom(result0.LastEvaluatedKey) == dom(lastKey)
 //@   ensures[C15] old(fd.forceFailureErr) != nil ==> result1 == old(fd.forceFailureErr) && unchangedAll()
 //@   opaque (*Table).SearchData
 //@   callsite[C02,C04,C17] (*Client).getTable: arg.tableName == old(input.TableName == nil ? "" : *input.TableName)
@@ -138,14 +144,27 @@ package client
 
 // BatchGetItem: every key of the input is looked up by one GetItem on its own table with the request's options;
 // (that a key without a stored item is reported as unprocessed is known finding C19-F1)
+//@ global ErrResourceNotFoundException != nil
 //@ func executeGetRequest
 //@   partial
 //@   callsite[C19] (*Client).GetItem: arg.fd == fd && arg.input == getInput
+//@   ensures[C19] result1 == nil ==> result0 != nil && len(result0) != 0
 
 //@ func (*Client).BatchGetItem
 //@   partial
 //@   callsite[C19] executeGetRequest: arg.fd == fd && arg.getInput != nil && arg.getInput.TableName != nil && *arg.getInput.TableName == tableName && arg.getInput.Key == req &&
 //@                arg.getInput.ConsistentRead == reqs.ConsistentRead && arg.getInput.ProjectionExpression == reqs.ProjectionExpression && arg.getInput.ExpressionAttributeNames == reqs.ExpressionAttributeNames
+// the answer of a table is the list of the items found, in request order and without holes: every key of the table is
+// either answered or reported as unprocessed
+//@   ensures[C19] result1 == nil ==> result0 != nil && forall t string :: {result0.Responses[t]} t in result0.Responses ==> forall j int :: {result0.Responses[t][j]} 0 <= j && j < len(result0.Responses[t]) ==> result0.Responses[t][j] != nil
+//@   loop 1:
+//@     invariant responses != nil && fresh(responses) && unprocessed != nil && fresh(unprocessed) && fresh(arr(unprocessedKeys)) && arr(unprocessedKeys) != 0
+//@     invariant forall t string :: {responses[t]} t in responses ==> fresh(arr(responses[t])) && arr(responses[t]) != arr(unprocessedKeys)
+//@     invariant forall t string :: {responses[t]} t in responses ==> forall j int :: {responses[t][j]} 0 <= j && j < len(responses[t]) ==> responses[t][j] != nil
+//@   loop 2:
+//@     invariant responses != nil && fresh(responses) && unprocessed != nil && fresh(unprocessed)
+//@     invariant forall t string :: {responses[t]} t in responses ==> fresh(arr(responses[t]))
+//@     invariant forall t string :: {responses[t]} t in responses ==> forall j int :: {responses[t][j]} 0 <= j && j < len(responses[t]) ==> responses[t][j] != nil
 
 // the core query a Query request is turned into
 //@ func mapDynamoToTypesQueryInput
@@ -420,3 +439,62 @@ package client
 //@   callsite[C16] validateSyntaxExpression#1: arg.regex == expressionAttributeNamesRegex && arg.expressions == flattenNames
 //@   callsite[C16] validateSyntaxExpression#2: arg.regex == expressionAttributeValuesRegex && arg.expressions == flattenValues
 //@   ensures[C16] result == nil && !(ExprText(genericExpressions) == "" && len(exprNames) == 0 && len(exprValues) == 0) ==> len(missingNames) == 0 && len(missingValues) == 0
+
+// ---- C18 / C17: table descriptions handed to the SDK v2 caller ---------------------------------------------
+// Position by position the description reports the internal one: every key schema element has its own attribute
+// name (a pointer of its own) and key type, every index its name, key schema and item count; the table its name,
+// item count, key schema and both index lists.
+//@ func mapTypesToDynamoKeySchemaElements
+//@   ensures[C18,C17] len(result) == len(input)
+//@   ensures[C18,C17] forall j int :: {result[j]} 0 <= j && j < len(input) ==> result[j].AttributeName != nil && *result[j].AttributeName == input[j].AttributeName && result[j].KeyType == input[j].KeyType
+//@   loop 1:
+//@     invariant fresh(arr(output)) && arr(output) != 0 && -1 <= rangeindex && rangeindex < len(input) && len(output) == rangeindex + 1
+//@     invariant forall j int :: {output[j]} 0 <= j && j <= rangeindex ==> output[j].AttributeName != nil && fresh(output[j].AttributeName) && *output[j].AttributeName == input[j].AttributeName && output[j].KeyType == input[j].KeyType
+//@ func mapTypesToDynamoGlobalSecondaryIndex
+//@   partial
+//@   callsite[C18,C17] mapTypesToDynamoKeySchemaElements: arg.input == input.KeySchema
+//@   ensures[C18,C17] result.IndexName == input.IndexName && result.ItemCount != nil && fresh(result.ItemCount) && *result.ItemCount == input.ItemCount && len(result.KeySchema) == len(input.KeySchema)
+//@ func mapTypesToDynamoLocalSecondaryIndex
+//@   partial
+//@   callsite[C18,C17] mapTypesToDynamoKeySchemaElements: arg.input == input.KeySchema
+//@   ensures[C18,C17] result.IndexName == input.IndexName && len(result.KeySchema) == len(input.KeySchema)
+//@ func mapTypesToDynamoTypesGlobalSecondaryIndexes
+//@   partial
+//@   callsite[C18,C17] mapTypesToDynamoGlobalSecondaryIndex: 0 <= rangeindex + 1 && rangeindex + 1 < len(input) && arg.input == input[rangeindex + 1]
+//@   ensures[C18,C17] len(result) == len(input)
+//@   ensures[C18,C17] forall j int :: {result[j]} 0 <= j && j < len(input) ==> result[j].IndexName == input[j].IndexName && result[j].ItemCount != nil && *result[j].ItemCount == input[j].ItemCount && len(result[j].KeySchema) == len(input[j].KeySchema)
+//@   loop 1:
+//@     invariant fresh(arr(output)) && arr(output) != 0 && -1 <= rangeindex && rangeindex < len(input) && len(output) == rangeindex + 1
+//@     invariant forall j int :: {output[j]} 0 <= j && j <= rangeindex ==> output[j].IndexName == input[j].IndexName && output[j].ItemCount != nil && fresh(output[j].ItemCount) && *output[j].ItemCount == input[j].ItemCount && len(output[j].KeySchema) == len(input[j].KeySchema)
+//@ func mapTypesToDynamoLocalSecondaryIndexes
+//@   partial
+//@   callsite[C18,C17] mapTypesToDynamoLocalSecondaryIndex: 0 <= rangeindex + 1 && rangeindex + 1 < len(input) && arg.input == input[rangeindex + 1]
+//@   ensures[C18,C17] len(result) == len(input)
+//@   ensures[C18,C17] forall j int :: {result[j]} 0 <= j && j < len(input) ==> result[j].IndexName == input[j].IndexName && len(result[j].KeySchema) == len(input[j].KeySchema)
+//@   loop 1:
+//@     invariant fresh(arr(output)) && arr(output) != 0 && -1 <= rangeindex && rangeindex < len(input) && len(output) == rangeindex + 1
+//@     invariant forall j int :: {output[j]} 0 <= j && j <= rangeindex ==> output[j].IndexName == input[j].IndexName && len(output[j].KeySchema) == len(input[j].KeySchema)
+//@ func mapTypesToDynamoTableDescription
+//@   partial
+//@   callsite[C18,C17] mapTypesToDynamoKeySchemaElements: arg.input == input.KeySchema
+//@   callsite[C18,C17] mapTypesToDynamoTypesGlobalSecondaryIndexes: arg.input == input.GlobalSecondaryIndexes
+//@   callsite[C18,C17] mapTypesToDynamoLocalSecondaryIndexes: arg.input == input.LocalSecondaryIndexes
+//@   ensures[C18,C17] input == nil ==> result == nil
+//@   ensures[C18,C17] input != nil ==> result != nil && fresh(result)
+//@   ensures[C18,C17] input != nil ==> (result.TableName != nil) == (input.TableName != "")
+//@   ensures[C18,C17] input != nil && input.TableName != "" ==> *result.TableName == input.TableName
+//@   ensures[C18,C17] input != nil ==> result.ItemCount != nil
+//@   ensures[C18,C17] input != nil ==> *result.ItemCount == input.ItemCount
+//@   ensures[C18,C17] input != nil ==> len(result.KeySchema) == len(input.KeySchema) && len(result.GlobalSecondaryIndexes) == len(input.GlobalSecondaryIndexes) && len(result.LocalSecondaryIndexes) == len(input.LocalSecondaryIndexes)
+
+// ---- C02 / C04 / C17: what a Query or Scan hands back ---------------------------------------------------------
+// every item the core returned is converted, in order (one result per item, the key set of each kept); the count is the
+// number of items; the last evaluated key is reported exactly when the core reports one, whatever the page holds
+//@ func mapTypesToDynamoSliceMapItem
+//@   partial
+//@   callsite[C02,C04,C17] mapTypesToDynamoMapItem: 0 <= rangeindex + 1 && rangeindex + 1 < len(input) && arg.input == input[rangeindex + 1]
+//@   ensures[C02,C04,C17] len(result) == len(input)
+//@   ensures[C02,C04,C17] forall j int :: {result[j]} 0 <= j && j < len(input) ==> result[j] != nil && dom(result[j]) == dom(input[j])
+//@   loop 1:
+//@     invariant fresh(arr(output)) && arr(output) != 0 && -1 <= rangeindex && rangeindex < len(input) && len(output) == rangeindex + 1
+//@     invariant forall j int :: {output[j]} 0 <= j && j <= rangeindex ==> output[j] != nil && fresh(output[j]) && dom(output[j]) == dom(input[j])
